@@ -64,6 +64,7 @@ class _C18(Spec):
     pid = "C18"
     lean_module = "Starcal.Props.C18"
     src_ties = ["Starcal.SrcTie.Tod"]
+    src_overflow = ["Starcal.SrcTie.NoOverflow2"]
     expected = "total seconds = 3600h+60m+s; seconds -> h:m:s -> seconds and h:m:s -> fractional hours -> h:m:s are identities on valid times; any fractional hour in [0,24) converts to a time within one second"
     rule = ("line protocol `tod`: all 86 400 valid times of day for `total` (GetTotalSeconds + GetHmsBySeconds back), `rt` (GetFloatHour -> FloatHourToHMS, the real "
             "float code against the exact-rational model) and `secs`; `fh <bits>` for k/3600 and k/3600 +- 1e-9 for every k and seeded random doubles in [0,24): the double's "
